@@ -246,6 +246,18 @@ PROPS['C02'] = {
     'assumptions': ['a signature verifies under a key iff it was produced with the matching private key over exactly those bytes'],
 }
 
+PROPS['C10'] = {
+    'level': 'proof',
+    'technique': 'Lean 4 theorems on a model of SignedMessage::validate_at (inspect, verify with encode_verify proved to be the DER SET OF of all signed attributes, IdCert::validate_ee_at, SignedMessageCrl::validate, verify_not_revoked) and of SignedMessage::create (exact acceptance iff, every single fault rejects, created messages validate iff own key and inside the validity) + differential check of the real code on library-made messages and on messages assembled by an independent RFC 5652 encoder with 0-6 extra signed attributes',
+    'claim': 'Lean 4 proofs: validate_at accepts iff protocol content type, exactly one content-type/message-digest/signing-time among the signed attributes (others admitted and kept in the signed bytes), digest attribute = digest of the content, signature by the EE key over 31 <DER length> <all attributes> for every size below 65536, sid = EE SKI = hash of the EE key, EE certificate signed by the peer key, inside its validity, not cA, AKI (if present) = peer key; CRL with matching algorithms signed by the peer key, thisUpdate <= t <= nextUpdate, AKI (if present) = peer key, EE serial not listed. Messages made by create() validate iff the validating key is the issuing key and nb <= t <= na. Partial: RSA, SHA-256 (checked against an independent Lean SHA-256), X.509/CMS envelopes are inputs of the model tied by the correspondence run.',
+    'note': 'ground truth comes from the harness encoder (who signed what, windows, serial lists). The validate_at step list, the IdCert EE checks and the CRL window comparison are re-read from the source on every run.',
+    'shards': {'quick': 4, 'thorough': 16},
+    'budget': {'quick': 900, 'thorough': 7200},
+    'rule': 'library-made messages (create) validated at nb-1, nb, mid, na, na+1 under the issuing and under another key; 900 (thorough 6000) foreign messages: content 0-200 octets, 0-6 extra signed attributes (unknown OIDs with values of 1-300 octets, binary-signing-time; total attribute size 100-2000 octets incl. the 128/256 boundaries), AKI present/absent on EE and CRL, basicConstraints absent/false/true(+pathLen), key usage, 0-50 revoked serials; one tampering per case out of 25: time at the window ends, EE or CRL signed by a stranger, cA EE, EE/CRL window before/after t, EE serial first/middle/last in the CRL, wrong AKI on EE/CRL, sid bit, foreign signer, signature bit, signature over [0]-tagged or non-DER length bytes, wrong digest, SKI not the key hash, wrong content type, degenerate windows.',
+    'trusted_base': ['aws-lc RSA verification and SHA-256/SHA-1', 'bcder and the CMS/X.509/CRL decoders for everything except what the facts record (validated differentially)'],
+    'assumptions': ['a signature verifies under a key iff it was produced with the matching private key over exactly those bytes'],
+}
+
 NOT_APPLICABLE = {
 }
 for _i in range(1, 18):
